@@ -191,6 +191,18 @@ def check(rep, tier):
             merged = None
         except Exception as e:
             rep.violation("load-crash %s" % type(e).__name__, "_loadConfig raises %r for %s" % (e, custom), dict(custom=custom)); continue
+        if i % 12 == 0 and merged is not None:
+            # the same file named in the other forms open() accepts (pathlib.Path, bytes): the same layered configuration
+            import pathlib
+            for form, pth in (("pathlib.Path", pathlib.Path(path)), ("bytes", path.encode())):
+                try:
+                    with contextlib.redirect_stdout(io.StringIO()):
+                        m2 = C._loadConfig(pth)
+                    rep.count("path given as " + form)
+                    if m2 != merged:
+                        rep.violation("path-form-ignored", "_loadConfig(%s) gives another configuration than _loadConfig(str) for the same file %s" % (form, custom), dict(custom=custom, form=form))
+                except Exception as e:
+                    rep.violation("path-form-crash", "_loadConfig(%s) raises %r although the str path loads (%s)" % (form, e, custom), dict(custom=custom, form=form))
         rep.case(repr(custom), nontrivial=bool(custom), sample=custom if i < 3 else None)
         rep.count("unknown-keys" if notes["unknown"] else "known-only"); rep.count("malformed" if notes["malformed"] else "wellformed")
         # ---- oracle: layering ---------------------------------------------------------------------------
